@@ -579,12 +579,14 @@ def tree_conversion_eval(chk, repo):
     I = Interp(repo)
     sc = I.module_scope(xm)
 
-    def V(name):
-        return Obj("Variable", OrderedDict(dims=ListLit([Const("rows")]), data=ListLit([Const(name)]), attrs=DictS({"of": Const(name)})))
+    def V(name, kind="f"):
+        return Obj("Variable", OrderedDict(dims=ListLit([Const("rows")]), data=ListLit([Const(name)]), attrs=DictS({"of": Const(name)}), kind=Const(kind)))
 
     def G(path, data, attrs):
         return Obj("Group", OrderedDict(path=Const(path), url=Const("u"), data=DictS(data), attrs=DictS(attrs)), klass=(gcls.mod, gcls.node))
-    img = lambda p: G(f"/imagery/{p}", OrderedDict([("time", V(f"{p}.time")), ("lat", V(f"{p}.lat")), ("data", V(f"{p}.data"))]), OrderedDict([("coordinates", ListLit([Const("time"), Const("lat")])), ("pol", Const(p))]))
+    # `att`: a per-line variable holding python objects (the nested structs of level 1.1 line records): it is named as a coordinate like the others
+    img = lambda p: G(f"/imagery/{p}", OrderedDict([("time", V(f"{p}.time", "M")), ("lat", V(f"{p}.lat")), ("att", V(f"{p}.att", "O")), ("data", V(f"{p}.data", "u"))]),
+                      OrderedDict([("coordinates", ListLit([Const("time"), Const("lat"), Const("att")])), ("pol", Const(p))]))
     root = G("/", OrderedDict([("summary", G("/summary", OrderedDict([("info", G("/summary/info", {}, {"k": Const(1)}))]), {"s": Const("S")})), ("top", V("root.top")),
                                ("imagery", G("/imagery", OrderedDict([("HH", img("HH")), ("HV", img("HV"))]), {}))]), {"vol": Const("V")})
     made = []
@@ -603,6 +605,15 @@ def tree_conversion_eval(chk, repo):
             return ds
         ds.fields["set_coords"] = Fn("py", impl=set_coords, name="set_coords")
         ds.fields["chunk"] = Fn("py", impl=lambda I2, a2, k2: ds, name="chunk")
+
+        def ds_getitem(I2, a2, k2):
+            k = a2[0]
+            if isinstance(k, Const) and isinstance(variables, DictS) and k.v in variables.items:
+                return variables.items[k.v]
+            raise _Raise(f"KeyError {k!r:.40}", ["KeyError", "LookupError", "Exception", "BaseException", "object"])
+        ds.fields["__getitem__"] = Fn("py", impl=ds_getitem, name="__getitem__")
+        ds.fields["data_vars"] = variables
+        ds.fields["variables"] = variables
         made.append(ds)
         return ds
     result = {}
@@ -611,7 +622,10 @@ def tree_conversion_eval(chk, repo):
         result["mapping"] = a[0] if a else None
         return Obj("DataTree", OrderedDict())
     sc.vars["xr"] = Obj("xarray", OrderedDict(Dataset=Fn("py", impl=dataset, name="xr.Dataset"), DataTree=Obj("DataTreeClass", OrderedDict(from_dict=Fn("py", impl=from_dict, name="from_dict")))))
-    sc.vars["to_variable"] = Fn("py", impl=lambda I_, a, k: Obj("xrVariable", OrderedDict(src=a[0])), name="to_variable")
+    def to_var(I_, a, k):
+        kind = a[0].fields.get("kind", Const("f")) if isinstance(a[0], Obj) else Const("f")
+        return Obj("xrVariable", OrderedDict(src=a[0], dtype=Obj("dtype", OrderedDict(kind=kind)), dims=a[0].fields.get("dims") if isinstance(a[0], Obj) else ListLit([])))
+    sc.vars["to_variable"] = Fn("py", impl=to_var, name="to_variable")
     try:
         I.call(I.lookup("to_datatree", sc), [root], {})
     except (ShapeError, _Raise, RecursionError) as e:
@@ -623,7 +637,7 @@ def tree_conversion_eval(chk, repo):
     chk.require(list(m.items) == want_paths, "C13-A10", where, f"one dataset per group, under its own path, in tree order: {want_paths}",
                 f"DataTree.from_dict receives the paths {list(m.items)} for the groups {want_paths}: groups are dropped, duplicated or renamed", key="datatree:paths")
     expect = {"/": (["top"], {"vol": "V"}, []), "/summary": ([], {"s": "S"}, []), "/summary/info": ([], {"k": 1}, []), "/imagery": ([], {}, []),
-              "/imagery/HH": (["time", "lat", "data"], {"pol": "HH"}, ["time", "lat"]), "/imagery/HV": (["time", "lat", "data"], {"pol": "HV"}, ["time", "lat"])}
+              "/imagery/HH": (["time", "lat", "att", "data"], {"pol": "HH"}, ["time", "lat", "att"]), "/imagery/HV": (["time", "lat", "att", "data"], {"pol": "HV"}, ["time", "lat", "att"])}
     for path, ds in m.items.items():
         if path not in expect or not (isinstance(ds, Obj) and ds.cls == "Dataset"):
             continue
